@@ -816,6 +816,15 @@ impl<'a> Th<'a> {
                 o.cells[c as usize].0.with_mut(|_| panic!("injected failure t{} (inside UnsafeCell::with_mut)", t));
                 None
             }
+            CellNested { c, k } => {
+                let cell = &o.cells[c as usize].0;
+                match k {
+                    0 => cell.with_mut(|_| cell.with(|_| ())),
+                    1 => cell.with(|_| cell.with_mut(|_| ())),
+                    _ => cell.with_mut(|_| cell.with_mut(|_| ())),
+                }
+                None
+            }
             PanicInAtomMut { a } => {
                 let t = self.t;
                 let p = unsafe { &mut *o.atomics[a as usize].0.get() };
